@@ -13,6 +13,8 @@ TRUSTED = ["model side = executable defining sums PcModel/Formulas.lean; each is
            "totals are proved = pi(x) for all x and admissible parameters (PcProofs/Formulas*.lean, executable_dr_total / "
            "executable_gourdon_total); the tie of the C++ terms to them is this sampled correspondence"]
 ASSUMPTIONS = ["explicit parameters are restricted to what the tuning options can produce"]
+RULE += "; " + p2loop.RULE_C08
+TRUSTED = TRUSTED + p2loop.TRUSTED_P2B
 
 
 def term_ops(x, y, z, k, yd, c, w, t):
